@@ -61,6 +61,7 @@ type Contract struct {
 	Where        string
 	Abstract     bool // body not verified (interface / extern)
 	Lemmas       []*Clause
+	Provenance   []string // interface-typed parameters that carry the fidRef they were loaded from
 }
 
 type Define struct {
@@ -73,12 +74,12 @@ type Define struct {
 	Uninterpreted bool
 }
 
-var headRe = regexp.MustCompile(`^(func|interface|extern|fparam|define|declare|lemma|inline|constglobal)\s+(.*)$`)
+var headRe = regexp.MustCompile(`^(func|interface|extern|fparam|define|declare|lemma|inline|constglobal|guard)\s+(.*)$`)
 var clauseRe = regexp.MustCompile(`^(requires|ensures|panic_ensures|invariant|decreases|lemma)(\[[A-Za-z0-9, ]*\])?\s*(@[A-Za-z0-9_.\-]+)?\s+(.*)$`)
 
 // ParseContracts reads //@ lines from text (comment-only Go or .spec file).
 func ParseContracts(file, text, pkg string, out *ContractSet) error {
-	lines := strings.Split(text, "\n")
+	lines := expandGroups(strings.Split(text, "\n"))
 	var cur *Contract
 	var lastClause *Clause
 	for ln, raw := range lines {
@@ -118,6 +119,14 @@ func ParseContracts(file, text, pkg string, out *ContractSet) error {
 					out.Contracts[contractKey(kind, pkg, name)] = k
 					out.Order = append(out.Order, contractKey(kind, pkg, name))
 				}
+				cur = nil
+			case "guard":
+				// guard T.f[props] read <expr over r> write <expr over r>
+				g, err := parseGuard(m[2], pkg, where)
+				if err != nil {
+					return err
+				}
+				out.Guards = append(out.Guards, g)
 				cur = nil
 			case "constglobal":
 				// constglobal name = value [props]
@@ -265,6 +274,8 @@ func ParseContracts(file, text, pkg string, out *ContractSet) error {
 			cur.Results = splitTop(rest, ',')
 		case "ghost":
 			cur.Ghost = append(cur.Ghost, rest)
+		case "provenance":
+			cur.Provenance = append(cur.Provenance, splitTop(rest, ',')...)
 		case "wrapper":
 			// wrapper fn during op; op
 			parts := strings.SplitN(rest, " during ", 2)
@@ -330,7 +341,55 @@ type ConstGlobal struct {
 	Where            string
 }
 
+type Guard struct {
+	Pkg, Type, Field string
+	Props            []string
+	Read, Write      *Clause
+	Where            string
+}
+
+func parseGuard(s, pkg, where string) (*Guard, error) {
+	g := &Guard{Pkg: pkg, Where: where}
+	head := s
+	if i := strings.IndexByte(s, ' '); i >= 0 {
+		head = s[:i]
+		s = strings.TrimSpace(s[i:])
+	} else {
+		s = ""
+	}
+	if i := strings.IndexByte(head, '['); i >= 0 {
+		g.Props = parseProps(head[i:])
+		head = head[:i]
+	}
+	parts := strings.SplitN(head, ".", 2)
+	if len(parts) != 2 {
+		return nil, fmt.Errorf("%s: bad guard target", where)
+	}
+	g.Type, g.Field = parts[0], parts[1]
+	ri := strings.Index(s, "read ")
+	wi := strings.Index(s, " write ")
+	if strings.HasPrefix(s, "write ") {
+		wi = 0
+		ri = -1
+	}
+	if ri == 0 {
+		end := len(s)
+		if wi > 0 {
+			end = wi
+		}
+		g.Read = &Clause{Props: g.Props, Text: strings.TrimSpace(s[5:end]), Where: where, Label: "read"}
+	}
+	if wi >= 0 {
+		g.Write = &Clause{Props: g.Props, Text: strings.TrimSpace(s[wi+len(" write "):]), Where: where, Label: "write"}
+		if wi == 0 {
+			g.Write.Text = strings.TrimSpace(s[len("write "):])
+		}
+	}
+	return g, nil
+}
+
 type ContractSet struct {
+	Guards       []*Guard
 	Contracts    map[string]*Contract
 	Order        []string
 	Defines      map[string]*Define
@@ -547,4 +606,45 @@ func hasProp(props []string, p string) bool {
 		}
 	}
 	return false
+}
+
+// expandGroups implements clause groups:
+//   //@ group NAME            following clause lines (until the next header) are stored, not parsed
+//   //@   use NAME            splices the stored lines into the current block
+func expandGroups(lines []string) []string {
+	groups := map[string][]string{}
+	var out []string
+	cur := ""
+	for _, raw := range lines {
+		s := strings.TrimSpace(raw)
+		if !strings.HasPrefix(s, "//@") {
+			out = append(out, raw)
+			continue
+		}
+		body := strings.TrimSpace(s[3:])
+		if strings.HasPrefix(body, "group ") {
+			cur = strings.TrimSpace(body[6:])
+			groups[cur] = nil
+			out = append(out, "")
+			continue
+		}
+		if headRe.MatchString(body) {
+			cur = ""
+		}
+		if cur != "" {
+			if body != "" {
+				groups[cur] = append(groups[cur], raw)
+			}
+			out = append(out, "")
+			continue
+		}
+		if strings.HasPrefix(body, "use ") {
+			for _, g := range strings.Fields(body[4:]) {
+				out = append(out, groups[strings.Trim(g, ",")]...)
+			}
+			continue
+		}
+		out = append(out, raw)
+	}
+	return out
 }
